@@ -123,3 +123,21 @@ Print Assumptions out_swap_only_target.
 Theorem out_protocol_shape : (shallow_copy_is_dict_swap && ufunc_swaps_only_out)%bool = true.
 Proof. exact out_protocol_shape_proof. Qed.
 Print Assumptions out_protocol_shape.
+
+(* A scipy.sparse matrix is a legal operand too.  In the anchored files every in-place scipy method
+   (sum_duplicates, sort_indices, eliminate_zeros, ...) is applied to a name re-bound just before to a
+   private copy — the generated list of sites, as the source is now.  (The effect summaries above count
+   these methods as writes as well: all_summaries_safe covers the callers.) *)
+Theorem scipy_copy_discipline :
+  (nonempty scipy_inplace_sites && forallb (fun p => snd p) scipy_inplace_sites)%bool = true.
+Proof. exact scipy_copy_discipline_proof. Qed.
+Print Assumptions scipy_copy_discipline.
+
+(* Dense results are fresh: according to the return summaries of the binding analysis no todense /
+   maybe_densify / __array__ of a sparse class can return an array sharing a buffer with the receiver,
+   and COO.todense allocates with np.full(...) first and returns only that allocation. *)
+Theorem dense_results_fresh :
+  (nonempty dense_result_may_alias && forallb (fun p => negb (snd p)) dense_result_may_alias
+   && todense_allocates_first && todense_returns_only_allocation)%bool = true.
+Proof. exact dense_results_fresh_proof. Qed.
+Print Assumptions dense_results_fresh.
